@@ -39,13 +39,14 @@ CHECKS = {
             "Seeded search over lengths 0..32, all pre-state classes and positions, stream faults on and off."),
     "C16": ("exploration", "4.C16", T_STORM + " over a 4-value alphabet with comparison and non-member operations boosted; plain differential checking against std::vector comparisons (no fault dimension)",
             "Differential check on simulator-reached states; exploration level only."),
+    "C17": ("exploration", "4.C17", "deterministic simulation replayed across builds: the same seeds (storm histories with fault plans) are executed by the engine compiled as C++11/14/17/20/23 with g++ and clang++ and with GCH_DISABLE_CONCEPTS; per-seed digests of the observable trace (contents, sizes, capacities, allocator ids, return values, exception kinds) must be identical, and every build also runs all oracles",
+            "10 builds over 6 universes; clang 14 -std=c++2b is excluded (its constant-evaluation handling misreports inlined() even in a 10-line program without the harness, see DESIGN.md)."),
     "C18": ("fault_enumeration", "4.C18", T_SWEEP + "; any injected fault that ends in std::terminate is a violation; a call whose noexcept(expr) is true must execute zero may-throw seam events",
             "Dynamic part only enumerates sampled cells; terminate is observed as worker death with the op and fault in flight recorded."),
 }
 
 NOT_APPLICABLE = [
     {"property_id": "C08", "reason": "check under construction in this session (constexpr replay executor); will be claimed when committed"},
-    {"property_id": "C17", "reason": "check under construction in this session (multi-standard replay); will be claimed when committed"},
     {"property_id": "C19", "reason": "compile-time layout constants (sizeof/alignof/default_buffer_size): nothing executes, so there is no history, fault or seam for a simulation to drive; deciding it is static_assert enumeration, a different technique"},
     {"property_id": "C20", "reason": "subject is GDB/natvis scripts inspecting a stopped process from outside; no fault, schedule or history inside the simulated process decides it, and natvis cannot run here"},
 ]
